@@ -24,7 +24,7 @@ from feems.fuel import FuelSpecifiedBy
 from feems.components_model.utility import IntegrationMethod
 
 THEOREMS = ["non_interference", "fresh_object", "after_any_history", "idempotent", "rebalance", "queries_pure", "query_twice",
-            "interleaved_queries"]
+            "interleaved_queries", "filter_afterBalance", "modeLen_afterBalance", "numberPoints_no_trace", "numberPoints_legacy_trace"]
 
 
 def results_differ(a, b, tol=1e-9):
@@ -65,6 +65,16 @@ def caller_arrays(plant):
             if isinstance(v, np.ndarray):
                 out[(name, attr)] = v
     return out
+
+
+def series_lengths(plant):
+    """lengths of the input series as they are held in the real objects just before a balance"""
+    es = plant.electric
+    consumers = [int(np.size(c.power_input)) for c in es.other_load + es.propulsion_drives]
+    units = [{"mode_len": int(np.size(u.load_sharing_mode)), "shares_always": bool(np.all(np.asarray(u.load_sharing_mode) == 0)),
+              "power_len": int(np.size(u.power_input))} for u in es.energy_storage + es.pti_pto]
+    return {"consumers": max(consumers, default=1), "status": [int(np.size(s.status)) for s in es.power_sources], "units": units,
+            "breakers": [int(np.size(b.status)) for b in es.bus_tie_breakers]}
 
 
 def queries(ctx, plant, case, res, where):
@@ -214,8 +224,17 @@ def run_history(ctx, hist, model=True):
                 M.apply_inputs(plant, R.mech_inputs(case))
             held = caller_arrays(plant)
             snap = {key: arr.copy() for key, arr in held.items()}
+            lens = series_lengths(plant) if (hist["kind"] == "electric" and model and ctx.model_available) else None
             if hist["kind"] == "electric":
                 plant.electric.do_power_balance_calculation()
+                if lens is not None:
+                    # the number of points of this balance follows from the lengths of the INPUTS held just before it (model
+                    # `History.numberPoints`) - not from what the balance before left in the objects (D89)
+                    want = ctx.model.call("validate.number_points", **lens)
+                    got = max(int(np.size(src.power_output)) for src in plant.electric.power_sources)
+                    ctx.count("number_of_points_compared", "first" if k == 0 else "later calculation")
+                    if want != got:
+                        ctx.fail("correspondence", "number-of-points", f"calculation {k}: model {want} points from the input lengths {lens}, the balance ran with {got}", where)
             elif hist["kind"] == "mechanical":
                 plant.mechanical.do_power_balance()
             else:
